@@ -539,9 +539,9 @@ def _answer(st, i, m, beh, args):
         if beh == 'empty':
             bd['txs'] = []
         elif parse:
-            bd['txs'] = [_lib_tx(U, n, i) for n in U.block_txs]
+            bd['txs'] = [_lib_tx(U, n, i) for n in U.block_txs[(page - 1) * limit:page * limit]]
         else:
-            bd['txs'] = [U.txs[n]['txid'] for n in U.block_txs]
+            bd['txs'] = [U.txs[n]['txid'] for n in U.block_txs[(page - 1) * limit:page * limit]]
         return bd
     if m == 'getrawblock':
         if beh == 'ok':
@@ -1084,7 +1084,7 @@ class _Run(object):
                 self.m_tx.add(U.by_txid[t.txid])
         elif m == 'getblock':
             if a.get('parse') and e['beh'] == 'ok':
-                self.m_tx.update(U.block_txs)
+                self.m_tx.update(U.block_txs[:a.get('limit', 10)])
             self.m_blk = True
 
     def bookkeeping(self, m, rnd, matched):
@@ -1381,10 +1381,11 @@ class _Run(object):
                           (what, _short(v)))
                 return
             got = [U.by_txid.get(t.txid if a.get('parse') else t) for t in txs]
-            if got != U.block_txs:
-                self.disc('cache.getblock.tx-differs', '%s: cached block lists transactions %r, the stored block held '
-                          '%r' % (what, got, U.block_txs),
-                          kf=F_ORDER if (None not in got and sorted(got) == U.block_txs) else None)
+            want_txs = U.block_txs[:a.get('limit', 10)]           # first page of the requested size
+            if got != want_txs:
+                self.disc('cache.getblock.tx-differs', '%s: cached block lists transactions %r, the first page of '
+                          'the stored block is %r' % (what, got, want_txs),
+                          kf=F_ORDER if (None not in got and sorted(got) == sorted(want_txs)) else None)
                 return
             if a.get('parse'):
                 for t, n in zip(txs, got):
